@@ -1,5 +1,6 @@
 import EkwVerif.Drive.Util
 import EkwVerif.Model.ExecLayer
+import EkwVerif.Model.BridgeInit
 open Lean EkwVerif.Drive EkwVerif.Worker EkwVerif.ExecLayer
 
 def pDs (j : Json) : Ds := match asArr j with | [a, b] => (asNat a, asNat b) | _ => (0, 0)
@@ -119,6 +120,14 @@ def xStep (s : Host) (j : Json) : Host × Json :=
     let gpus := getNat j "gpus"
     (s, Json.mkObj [("reg", Json.arr ((regGpu gpus nW).map fun p => Json.arr #[toJson p.1, toJson (if p.2 then 1 else 0 : Nat)]).toArray),
       ("sees", Json.arr ((List.range nW).map fun i => nats (visible (cudaFields i))).toArray)])
+  | "bridge_init" =>
+    -- the registration messages in the order Bridge.__init__ received them: [host, nW, CASCADE_GPU_COUNT]
+    let msgs := (getArr j "regs").map fun r => match asArr r with
+      | [h, nW, g] => EkwVerif.BridgeInit.execReg (asNat h) (asNat nW) (asNat g)
+      | _ => EkwVerif.BridgeInit.execReg 0 0 0
+    let st := EkwVerif.BridgeInit.bridgeInit msgs
+    (s, Json.mkObj [("hosts", nats st.hosts),
+      ("env", Json.arr (st.env.map fun p => Json.arr #[toJson p.1.host, toJson p.1.idx, toJson (if p.2 then 1 else 0 : Nat)]).toArray)])
   | _ => (s, Json.mkObj [("driver_error", "bad op")])
 
 def main : IO Unit := runLoop (Host.init [] 0) xStep
